@@ -29,7 +29,7 @@ from ..cfg import cfg_of
 from ..core import Ctx
 from ..exc import ExcModel, raised_class
 from ..loader import AnalysisError, FunctionInfo, walk_scope
-from ..resolve import last_attr
+from ..resolve import call_name, last_attr
 from ..util import HTTP_EXCHANGE, calls, dominated, mini_eval, names_in, one, path_text, some, try_protecting, txt
 from ._g2_helpers import (
     AS,
@@ -236,13 +236,27 @@ def _check_crypto(ctx: Ctx, model: ExcModel) -> None:
             ctx.check(ok, "RF-DOM", "open_bytes-returns-only-verified-plaintext", fi, rets[0] if rets else fi.node,
                       ok="every return of open_bytes is the result of the verifying primitive", bad="open_bytes can return something other than the verified plaintext")
         else:
-            nonce_args = [a for a in pcall.args if isinstance(a, ast.Name) and a.id != "payload" and a.id not in params_of(fi)]
-            fresh = False
-            for a in nonce_args:
-                d = single_def(fi, a.id)
-                if isinstance(d, ast.Call) and last_attr(d) in ("urandom", "token_bytes"):
-                    n = const_int(ctx, mod, d.args[0]) if d.args else None
-                    fresh = n is not None and n >= 24
+            # the nonce is the primitive's argument that is neither the payload nor derived from key / aad
+            nonce_args = [a for a in pcall.args if not (names_in(a) & {"payload", "key", "aad"})]
+
+            def _os_random(f: FunctionInfo, e: ast.expr | None, depth: int = 3) -> bool:
+                """e is a fresh draw of >= 24 bytes from the OS CSPRNG, evaluated at every call."""
+                if e is None or depth <= 0:
+                    return False
+                if isinstance(e, ast.Name) and e.id not in params_of(f):
+                    return _os_random(f, single_def(f, e.id), depth - 1)  # a module-level (import-time) value has no single_def here
+                if not isinstance(e, ast.Call):
+                    return False
+                if call_name(e) in ("os.urandom", "secrets.token_bytes", "nacl.utils.random"):
+                    n = const_int(ctx, f.module, e.args[0]) if e.args else None
+                    return n is not None and n >= 24
+                for g in ctx.res.resolve(f, e, heuristic=False, count=False):
+                    rr = [r for r in walk_scope(g.node) if isinstance(r, ast.Return)]
+                    if rr and all(_os_random(g, r.value, depth - 1) for r in rr):
+                        return True
+                return False
+
+            fresh = bool(nonce_args) and all(_os_random(fi, a) for a in nonce_args)
             ctx.check(fresh, "RF-TAINT", "fresh-nonce-per-seal", fi, pcall,
                       ok="the nonce is drawn from the OS RNG (>= 24 bytes) inside every seal_bytes call",
                       bad="the nonce passed to the primitive is not a fresh >=24-byte random value per seal: nonce reuse reveals plaintext and permits forgery")
@@ -382,6 +396,9 @@ def _check_opener(ctx: Ctx, model: ExcModel, kind: str) -> dict:
     exp_ifs = [n for n in walk_scope(fi.node) if isinstance(n, ast.If) and any(is_clock_call(x) for x in ast.walk(n.test))]
     if not exp_ifs:
         ROLES[f"open:{kind}:ttl"] = None
+        maybe = [n for n in walk_scope(fi.node) if isinstance(n, ast.If) and any(p in names_in(n.test) for p in params_of(fi) if p not in (o_aad, o_key)) and any(derives_from(fi, ast.Name(id=x, ctx=ast.Load()), opened) for x in names_in(n.test) if x not in params_of(fi))]
+        if maybe:
+            raise AnalysisError(f"C12: `{txt(maybe[0].test)}` in {fi.fq} may be an expiry test but reads no recognised clock (time.time()/time.monotonic()) — cannot decide")
         ctx.fail("RF-DOM", f"ttl-rejects-expired:{kind}", fi, fi.node, "no comparison of the token's creation time with the clock: an expired token is accepted")
         return {"fi": fi, "oc": oc}
     eif = exp_ifs[0]
@@ -606,7 +623,6 @@ def _check_mints(ctx: Ctx) -> None:
 
 def _check_recover(ctx: Ctx) -> None:
     fi = ctx.fn(RECOVER)
-    cfg = cfg_of(fi.node)
     oc = one(calls_to(ctx, fi, OPEN["cursor"]), "cursor open", fi)
     am = arg_map(ctx.repo.func(OPEN["cursor"]), oc)
     o_aad, o_key, o_ttl = ROLES.get("open:cursor:aad"), ROLES.get("open:cursor:key"), ROLES.get("open:cursor:ttl")
